@@ -442,6 +442,7 @@ mod boxed {
     reference::{ObjRef, ObjectRef},
   };
 
+  use std::hash::Hash;
   use std::ptr::NonNull;
   use std::{fmt, io::Write};
 
@@ -482,7 +483,7 @@ mod boxed {
   // 0111 1111 1111 1100 0000 0000 0000 0000 0000 0000 0000 0000 0000 0000 0000 0100
   pub const VALUE_UNDEFINED: Value = Value(TAG_UNDEFINED);
 
-  #[derive(PartialEq, Eq, Hash, Copy, Clone, Debug)]
+  #[derive(Copy, Clone, Debug)]
   pub struct Value(u64);
 
   impl Value {
@@ -596,6 +597,35 @@ mod boxed {
           ObjectKind::LyBox => "box",
           ObjectKind::Tuple => "tuple",
         },
+      }
+    }
+  }
+
+  impl PartialEq for Value {
+    /// Determine if this `Value` and another `Value` are equal inside
+    /// of the laythe runtime. Numbers compare as `f64`, so `0 == -0` and
+    /// `NaN != NaN` as in the enum representation, every other value is
+    /// only equal to the same bit pattern
+    fn eq(&self, other: &Value) -> bool {
+      if self.is_num() && other.is_num() {
+        self.to_num() == other.to_num()
+      } else {
+        self.0 == other.0
+      }
+    }
+  }
+
+  impl Eq for Value {}
+
+  impl Hash for Value {
+    fn hash<H: std::hash::Hasher>(&self, state: &mut H) {
+      // equal numbers must hash alike (0 and -0), numbers are hashed
+      // the same way as in the enum representation
+      if self.is_num() {
+        ValueKind::Number.hash(state);
+        (self.to_num() as u64).hash(state);
+      } else {
+        self.0.hash(state);
       }
     }
   }
